@@ -94,7 +94,7 @@ func main() {
 	flag.Parse()
 	what := flag.Args()
 	if len(what) == 0 {
-		what = []string{"setters", "effects", "wrappers"}
+		what = []string{"setters", "effects", "wrappers", "sites"}
 	}
 	if *out == "" {
 		fail("-out required")
@@ -129,6 +129,8 @@ func main() {
 			writeFile(*out, "Effects_gen.v", genEffects(core, subs))
 		case "wrappers":
 			writeFile(*out, "Wrappers_gen.v", genWrappers(core, subs))
+		case "sites":
+			writeFile(*out, "Sites_gen.v", genSites(core))
 		default:
 			fail("unknown output %q", w)
 		}
